@@ -64,7 +64,7 @@ CLAIMS = {
             "an existing condition (C02); repeatability by purity of the model. PARTIAL: thread schedules are covered only by the read-only "
             "argument, the interpreter is not modelled. Identity-aware snapshots of documents, rules, paths, parts and conditions after every "
             "call of generated histories on the implementation.", "DESIGN.md section 7 C08"),
-    "C09": ("12 theorems (ValidaProofs/C09.lean): the constructor tables generated from GeneralCallables / MapCallables bind correctly "
+    "C09": ("17 theorems (ValidaProofs/C09.lean, C09Spec.lean): headline `C09_spec_is_dsl` (C09Spec.lean): for every class, every constructor of the generated tables (aliases included), every spelling of the key (any letter case; type/dtype, len/length, in/in_) and every argument form the signature admits (scalar; list, tuple or mapping for several parameters; list for *args; mapping for **kwargs; type names for types), the spec parses to exactly the leaf the DSL call builds; `C09_spec_tree`: operator lists parse to the DSL-built tree. Also: the constructor tables generated from GeneralCallables / MapCallables bind correctly "
             "against the signatures generated from callables.py (what not_in_range violated), alias and type-name tables, null spec, and/or/xor "
             "fold, case-insensitivity of the key, representative spec = DSL rows per signature branch. Every (class, constructor) pair and "
             "spelling is exercised differentially (parser model vs implementation, constructor table vs DSL objects).",
@@ -73,14 +73,14 @@ CLAIMS = {
             "primitive part specs = DataPath(*prims), mapping parts make the path non-concrete, suffix tokens = modifier methods in both orders "
             "with aliases, path strings, rule fields and casts, doc normalisation. YAML text is loaded by ruamel (a parameter) and fed to the "
             "same parser in the differential run.", "DESIGN.md section 7 C10"),
-    "C11": ("10 theorems (ValidaProofs/C11.lean): serialiser branch (callable signature) and parser branch (constructor signature) agree for "
+    "C11": ("15 theorems (ValidaProofs/C11.lean, C11Round.lean): headline `C11_leaf_roundtrip` / `_types` (C11Round.lean): every DSL condition with scalar literal arguments (named types for the dtype classes and instance tests), for every class and constructor of the generated tables, is written and read back as exactly the same condition; `C11_tree_roundtrip` lifts this to well-formed trees. Also: serialiser branch (callable signature) and parser branch (constructor signature) agree for "
             "every constructor, single parameters are stored by keyword, type names invert, every emitted key parses back to the same class "
             "and callable, null / combination / scalar-leaf / representative-row round trips. Known findings D10 (DataPath argument emitted "
             "as an object) and D11 (path-like literal mapping not escaped) are listed, not repaired.", "DESIGN.md section 7 C11"),
     "C12": ("6 theorems (ValidaProofs/C12.lean): to_part_specs refuses modifiers / bound data, whatever it emits describes part by part an "
             "equal part (plain key / index rebuilt to exactly that part, or a bare part spec), refusal examples, round trip through "
             "from_part_specs with pairwise-equal parts, plain-key paths always serialise.", "DESIGN.md section 7 C12"),
-    "C13": ("6 theorems (ValidaProofs/C13.lean): cast tables invert, shape of a serialised rule, cast round trip for both declared casts, "
+    "C13": ("11 theorems (ValidaProofs/C13.lean, C13Schema.lean): headline `C13_schema_roundtrip` (C13Schema.lean): a sorted schema whose rules have round-tripping conditions (C11), serialisable paths built by the constructor (C12) and casts from the library's table is written and parsed back to an equal schema (`schemaEq`), casts included; `C13_rule_roundtrip_eq` for single rules. Also: cast tables invert, shape of a serialised rule, cast round trip for both declared casts, "
             "rule round trip from the condition and path round trips, re-sorting a sorted rule list is the identity.",
             "DESIGN.md section 7 C13"),
     "C14": ("13 theorems (ValidaProofs/C14.lean): condition / part / path / rule equality is reflexive, symmetric and transitive wherever "
